@@ -373,7 +373,7 @@ func CheckC17(c *Ctx) int {
 					select {
 					case r := <-got:
 						acquired = r == "ok"
-					case <-time.After(5 * time.Second):
+					case <-time.After(20 * time.Second):
 					}
 				}
 				evs = append(evs, Ev{"ev": "LWaiter", "holder": modes[0], "waiter": modes[1], "blockedWhileHeld": blocked, "acquiredAfterClose": acquired})
